@@ -408,7 +408,7 @@ def check(ctx):
     hints = set(obl[n][2] for n in failed if obl[n][2])
 
     s = Search(ctx, exe)
-    t_end = time.time() + (60 if quick else 720)
+    t_end = time.time() + (60 if quick else 540)
     # corpus first
     for name, obj in corpus_cases():
         s.one(parse_workloads(obj["workloads"]), repeat=2)
